@@ -14,7 +14,7 @@ import (
 
 func init() {
 	register(&Rule{ID: "SPEC-put-delete", Props: []string{"C07"}, Min: 6,
-		Doc: "S (abstract evaluation over a finite domain): objectPut and objectDelete are evaluated - through the ordinary object's class table, with the property tables of the object and of its prototype as the only state - on every combination of: the own property in each representation reachable by Object.defineProperty (SPEC-define-own), the prototype missing / without the property / holding it in each reachable representation, the object extensible or not, and throw true or false. The outcome (TypeError, the setter that was called and with which receiver, the own property afterwards, the prototype's property untouched) equals ES5 8.12.4-5 and 8.12.7: a non-writable value never changes, an inherited accessor governs the assignment, an inherited read-only data property or a non-extensible object blocks the creation of an own property, a non-configurable property is not deleted",
+		Doc: "S (abstract evaluation over a finite domain): fromPropertyDescriptor is evaluated on every reachable representation (the descriptor object has exactly value / writable or get / set, plus enumerable and configurable, with the stored values: 8.10.4); objectPut and objectDelete are evaluated - through the ordinary object's class table, with the property tables of the object and of its prototype as the only state - on every combination of: the own property in each representation reachable by Object.defineProperty (SPEC-define-own), the prototype missing / without the property / holding it in each reachable representation, the object extensible or not, and throw true or false. The outcome (TypeError, the setter that was called and with which receiver, the own property afterwards, the prototype's property untouched) equals ES5 8.12.4-5 and 8.12.7: a non-writable value never changes, an inherited accessor governs the assignment, an inherited read-only data property or a non-extensible object blocks the creation of an own property, a non-configurable property is not deleted",
 		Run: ruleSpecPutDelete})
 }
 
@@ -278,6 +278,80 @@ func ruleSpecPutDelete(c *Ctx, r *R) {
 			}
 		}
 	}
+	// ---- FromPropertyDescriptor (8.10.4): what Object.getOwnPropertyDescriptor reports for each representation ----
+	var fFrom *ssa.Function
+	for _, fn := range c.AllSrcFuncs("") {
+		if ssaFuncName(fn) == "(*runtime).fromPropertyDescriptor" {
+			fFrom = fn
+		}
+	}
+	if fFrom == nil {
+		r.undecided("unresolved:fromPropertyDescriptor", "-", "UNRESOLVED: (*runtime).fromPropertyDescriptor")
+	} else {
+		var made []*acell
+		hooks["(*runtime).newObject"] = func(in *absInterp, call *ssa.CallCommon, args []aval) (aval, bool) {
+			cell := mkObject(fmt.Sprintf("desc%d", len(made)), nil, true, aNil{})
+			made = append(made, cell)
+			return aRef{root: cell}, true
+		}
+		for _, k := range keys {
+			own := w.states[k]
+			if own == nil {
+				continue
+			}
+			ownSt, why := w.decode(own)
+			if why != "" {
+				continue
+			}
+			st := get("8.10.4 FromPropertyDescriptor " + ownSt.kind)
+			st.cases++
+			pv := in.zero(m.tProperty).(aStruct)
+			pv.f[0], pv.f[1] = deepCopy(own.value), aInt(own.mode)
+			made = nil
+			ret, pan, fail := absRun(in, fFrom, []aval{aAtom{"rt"}, pv})
+			desc := "Object.getOwnPropertyDescriptor of " + ownSt.String()
+			if fail != "" {
+				if st.fail == "" {
+					st.fail = fail + " [" + desc + "]"
+				}
+				continue
+			}
+			if pan != nil {
+				st.bad = append(st.bad, desc+" panics in the host ("+describeAval(pan)+")")
+				continue
+			}
+			ref, ok := ret.(aRef)
+			if !ok {
+				st.bad = append(st.bad, desc+" does not return an object")
+				continue
+			}
+			got := map[string]string{}
+			for name, p := range ref.root.v.(aStruct).f[w.fProp].(aMap).m {
+				ps := p.(aStruct)
+				fst, why := w.decode(&storedProp{value: ps.f[0], mode: int64(ps.f[1].(aInt))})
+				if why != "" || fst.kind != "data" || !fst.w || !fst.e || !fst.c {
+					got[name] = "not a plain data property: " + why + fst.String()
+					continue
+				}
+				got[name] = fst.v
+			}
+			want := map[string]string{"enumerable": fmt.Sprint(ownSt.e), "configurable": fmt.Sprint(ownSt.c)}
+			if ownSt.kind == "data" {
+				want["value"], want["writable"] = ownSt.v, fmt.Sprint(ownSt.w)
+			} else {
+				want["get"], want["set"] = strings.Replace(ownSt.g, "fn:", "obj:", 1), strings.Replace(ownSt.s, "fn:", "obj:", 1)
+			}
+			for name, v := range got {
+				if strings.HasPrefix(v, "fn:") {
+					got[name] = "obj:" + v[3:]
+				}
+			}
+			if fmt.Sprint(got) != fmt.Sprint(want) {
+				st.bad = append(st.bad, fmt.Sprintf("%s has fields %v; ES5 8.10.4 requires %v", desc, got, want))
+			}
+		}
+		delete(hooks, "(*runtime).newObject")
+	}
 	var cats []string
 	for k := range stats {
 		cats = append(cats, k)
@@ -288,6 +362,9 @@ func ruleSpecPutDelete(c *Ctx, r *R) {
 		site := c.Pos(fPut.Pos())
 		if strings.HasPrefix(cat, "8.12.7") {
 			site = c.Pos(fDelete.Pos())
+		}
+		if strings.HasPrefix(cat, "8.10.4") && fFrom != nil {
+			site = c.Pos(fFrom.Pos())
 		}
 		switch {
 		case st.fail != "":
